@@ -327,3 +327,71 @@ func rootInferenceRule(c *Ctx, r *RuleResult) {
 		r.AnchorLost("stores schema.X = schema.Types[\"X\"] in ValidateSchemaDocument")
 	}
 }
+
+// rootBlockRule (C13.R7): the writer half of the same agreement. The loader infers default-named roots only when the
+// document has no schema definition, so whenever FormatSchema writes a schema definition it must write every root that
+// is set. The three writes `WriteWord(schema.X.Name)` may therefore be guarded only by "root X is set" and by
+// conditions that guard all three alike (the decision to write the definition at all); a test of X's own name that
+// guards only X's write lets the definition appear without X.
+func rootBlockRule(c *Ctx, r *RuleResult) {
+	p := c.P
+	fs := p.Func("formatter.(*formatter).FormatSchema")
+	if fs == nil {
+		r.AnchorLost("formatter.(*formatter).FormatSchema")
+		return
+	}
+	type wr struct {
+		in     ssa.Instruction
+		guards map[string]bool
+	}
+	writes := map[string]*wr{}
+	for _, fn := range withClosures(fs) {
+		allInstrs(fn, func(in ssa.Instruction) {
+			ci, ok := in.(ssa.CallInstruction)
+			if !ok || ci.Common().StaticCallee() == nil || ci.Common().StaticCallee().Name() != "WriteWord" || len(ci.Common().Args) < 2 {
+				return
+			}
+			d := operandDesc(ci.Common().Args[1])
+			for _, root := range []string{"Query", "Mutation", "Subscription"} {
+				if d == "Schema."+root+"->Definition.Name" {
+					w := &wr{in, map[string]bool{}}
+					for _, cd := range condsAt(in.Block()) {
+						if structuralGuard(cd) {
+							continue
+						}
+						w.guards[guardDesc(cd)] = true
+					}
+					writes[root] = w
+				}
+			}
+		})
+	}
+	if len(writes) != 3 {
+		r.AnchorLost(fmt.Sprintf("the three writes of schema.X.Name in FormatSchema (found %d)", len(writes)))
+		return
+	}
+	for _, root := range []string{"Query", "Mutation", "Subscription"} {
+		w := writes[root]
+		var own []string
+		for g := range w.guards {
+			if g == "Schema."+root+" != nil" {
+				continue
+			}
+			shared := true
+			for _, o := range writes {
+				if !o.guards[g] {
+					shared = false
+				}
+			}
+			if !shared {
+				own = append(own, g)
+			}
+		}
+		sort.Strings(own)
+		if len(own) > 0 {
+			r.Fail(w.in.Pos(), p.FuncName(w.in.Parent()), "the "+root+" root is written only when "+strings.Join(own, " and "), "the schema definition is also written when another root has a non-default name; "+root+" is then left out of it although it is set, and the loader infers default-named roots only when there is no schema definition at all: the reloaded schema has no "+root+" root")
+		} else {
+			r.OK("write of the "+root+" root in FormatSchema", "guarded only by the root being set and by the conditions shared by all three root writes")
+		}
+	}
+}
